@@ -388,7 +388,7 @@ fn sim_read_inner(path: &str) -> ReadResult {
         seq = w.read_seq;
         w.read_seq += 1;
         w.stats.reads += 1;
-        w.ev(0, format!("a{me} read-invoke r{seq} {path:?}"));
+        w.ev(1, format!("a{me} read-invoke r{seq} {path:?}"));
     }
     yield_point(me, "pre-read");
     let res: Result<(Arc<Vec<u8>>, Expect), ErrKind>;
